@@ -89,6 +89,29 @@ def last_field(org: str) -> str:
     return org.replace("[*]", "").rsplit(".", 1)[-1]
 
 
+def names_of_container(org: str) -> bool:
+    """origin text of an element of the keys of a mapping (`X.keys()[*]`), or of the reference mapping iterated directly"""
+    return org.endswith(".keys()[*]") or (org.endswith("[*]") and last_field(org) == "reference")
+
+
+def rejected_by(e, validator: str):
+    """If expression `e` is the collection of the elements for which `<...>.<validator>` is false - in either spelling:
+    `filterfalse(<validator>, K)` or a comprehension `[x for x in K if not <validator>(x)]`, possibly wrapped in
+    tuple / list / set / sorted - the iterable K, else None."""
+    while isinstance(e, ast.Call) and isinstance(e.func, ast.Name) and e.func.id in ("tuple", "list", "set", "sorted", "frozenset") and len(e.args) == 1:
+        e = e.args[0]
+    if isinstance(e, ast.Call) and call_name(e) == "filterfalse" and len(e.args) == 2 and norm(e.args[0]).split(".")[-1] == validator:
+        return e.args[1]
+    if isinstance(e, (ast.ListComp, ast.SetComp, ast.GeneratorExp)) and len(e.generators) == 1 and isinstance(e.generators[0].target, ast.Name):
+        g = e.generators[0]
+        var = g.target.id
+        facts = [f_ for i in g.ifs for f_ in shape.conjuncts(i, "t")]
+        failing = [a_ for (a_, truth) in facts if truth is False and isinstance(a_, ast.Call) and call_name(a_) == validator and len(a_.args) == 1 and norm(a_.args[0]) == var]
+        if isinstance(e.elt, ast.Name) and e.elt.id == var and failing and len(facts) == 1:
+            return g.iter
+    return None
+
+
 def ctor_arg(call, pos: int, name: str):
     """argument of a constructor call given positionally at `pos` or by keyword `name`"""
     if len(call.args) > pos and not any(isinstance(a, ast.Starred) for a in call.args[:pos + 1]):
@@ -172,9 +195,11 @@ def parser_entry_rule(ck, ix):
     cfg = cfg_of(f)
     def names_failing_the_dimension_test(a_):
         """the collection of keys for which errors.is_valid_dimension_name is false (whatever local holds it)"""
-        if not isinstance(a_, (ast.Name, ast.Call)):
+        if not isinstance(a_, (ast.Name, ast.Call, ast.ListComp, ast.SetComp)):
             return False
-        return any(isinstance(c_, ast.Call) and call_name(c_) == "filterfalse" and c_.args and norm(c_.args[0]).endswith("is_valid_dimension_name") for c_ in ast.walk(shape.resolve(a_, f.node)))
+        over = rejected_by(shape.resolve(a_, f.node), "is_valid_dimension_name")
+        # ... of the scale-checked container that is returned (its keys, or the mapping iterated directly)
+        return over is not None and norm(over) in ("self.to_units_container(s)", "self.to_units_container(s).keys()")
     g = shape.guard_edges(cfg, names_failing_the_dimension_test, want=True)
     ck.check(bool(g) and all(edge_leads_only_to_raise(cfg, x, lab) is None for (x, lab) in g), "G-DOM", "ParserConfig.to_dimension_container|invalid-names-raise", f.loc(), "non-dimension names raise", "to_dimension_container no longer raises for names that are not [dimension] names")
     f = ix.func(BD, "ParserConfig.to_scaled_units_container")
@@ -214,7 +239,9 @@ def run(ck, ix, tier):
                     org = origin(c.args[0], pi.node)       # e.g. self.name, self.aliases[*], self.rules[*].new_unit_name
                     if fld == "name":
                         # the name field, a field / collection of names, or (contexts) the alternative names of the context
-                        ok = last_field(org).endswith(("name", "names")) or (kind == "context" and org == "self.aliases[*]")
+                        # ... or a key of a reference container (`self.reference.keys()[*]`, also through a hoisted view or by
+                        # iterating the mapping itself): the names a definition refers to
+                        ok = last_field(org).endswith(("name", "names")) or (kind == "context" and org == "self.aliases[*]") or names_of_container(org)
                     elif fld == "symbol":
                         ok = org == "self.defined_symbol"
                     elif fld == "alias":
